@@ -19,11 +19,14 @@ LEVEL = "other"
 
 OUT = "/repo/opm/output/eclipse/"
 RST = "/repo/opm/io/eclipse/rst/"
-WRITERS = [OUT + "AggregateWellData.cpp", OUT + "AggregateConnectionData.cpp", OUT + "AggregateGroupData.cpp", OUT + "AggregateMSWData.cpp"]
-READERS = [RST + "well.cpp", RST + "connection.cpp", RST + "group.cpp", RST + "segment.cpp", OUT + "LoadRestart.cpp"]
+WRITERS = [OUT + "AggregateWellData.cpp", OUT + "AggregateConnectionData.cpp", OUT + "AggregateGroupData.cpp", OUT + "AggregateMSWData.cpp",
+           OUT + "AggregateNetworkData.cpp", OUT + "AggregateAquiferData.cpp"]
+READERS = [RST + "well.cpp", RST + "connection.cpp", RST + "group.cpp", RST + "segment.cpp", RST + "network.cpp", RST + "aquifer.cpp", OUT + "LoadRestart.cpp"]
 VI = "Opm::RestartIO::Helpers::VectorItems::"
 MEAS = "Opm::UnitSystem::measure::"
-ARRAYS = ("IWell", "SWell", "XWell", "IConn", "SConn", "XConn", "IGroup", "SGroup", "XGroup", "ISeg", "RSeg")
+ARRAYS = ("IWell", "SWell", "XWell", "IConn", "SConn", "XConn", "IGroup", "SGroup", "XGroup", "ISeg", "RSeg",
+          "INode", "IBran", "RNode", "RBran", "IAnalyticAquifer", "SAnalyticAquifer", "XAnalyticAquifer", "IAnalyticAquiferConn",
+          "SAnalyticAquiferConn", "INumericAquifer", "RNumericAquifer")
 
 KEY_RE = re.compile(r"^[WGFCS][A-Z0-9]{2,7}$")
 
@@ -159,15 +162,46 @@ def summarise(rhs, fn, lams, arr_name, env=None, depth=0):
         return dict(measures=list(ms), keys=a["keys"] | b["keys"], copies=a["copies"] | b["copies"] | c["copies"], opaque=False)
     out = dict(measures=[], keys=set(), copies=set(), opaque=False)
     local_strs = {}
+    pm_ = parent_map(rhs)
+
+    def directed(node, name):
+        """measure name with the direction of the conversion call that takes it as its first argument: a writer multiplies by
+        the from_si factor; a to_si on the writer side (a 'unit hack') divides."""
+        p_ = pm_.get(id(node))
+        hops = 0
+        while p_ is not None and hops < 4:
+            if p_["k"] in ("MCall", "Call"):
+                nm = p_.get("m") or (p_.get("fn") or "").split("::")[-1]
+                if nm == "to_si" and p_.get("a") and any(x is node for x in walk(p_["a"][0])):
+                    return "1/" + name
+                if nm == "from_si":
+                    return name
+                break
+            p_ = pm_.get(id(p_))
+            hops += 1
+        return name
+    fdecls = {}
+    if depth == 0 and fn.get("body"):
+        for n in walk_fn(fn):
+            if n["k"] == "Decl":
+                for v in n["vars"]:
+                    if v.get("init") is not None:
+                        fdecls.setdefault(v["n"], v["init"])
     for n in walk(rhs):
         k = n["k"]
         if k == "Ref" and n.get("d") == "Enum" and (n.get("q") or "").startswith(MEAS):
             if not in_lambda_arg(n, rhs, lams):
-                out["measures"].append(n["n"])
+                out["measures"].append(directed(n, n["n"]))
         elif k == "Ref" and n["n"] in env and n.get("d") in ("Parm", "Var"):
             for v in env[n["n"]] or ():
                 if isinstance(v, tuple) and v[0] == "measure":
-                    out["measures"].append(v[1])
+                    out["measures"].append(directed(n, v[1]))
+        elif k == "Ref" and n.get("d") == "Var" and depth == 0 and n["n"] in fdecls and n["n"] not in lams and n["n"] != arr_name:
+            # a local that was itself produced by a conversion (q = from_si(rate, x); ... to_si(length, q))
+            init = fdecls[n["n"]]
+            if any((x.get("m") or (x.get("fn") or "").split("::")[-1]) in ("to_si", "from_si") for x in walk(init) if x["k"] in ("MCall", "Call")):
+                sub = summarise(init, fn, lams, arr_name, env, depth + 1)
+                out["measures"] += sub["measures"]
         elif subscript(n):
             b_, i_ = subscript(n)
             s = slot_of(i_)
@@ -420,8 +454,9 @@ def helper_measure(h, depth=0):
     variable = False
     for c in calls:
         ms = measures_in(c["a"][0]) if c.get("a") else []
+        nm_ = c.get("m") or (c.get("fn") or "").split("::")[-1]
         if ms:
-            comp.append(ms[0])
+            comp.append(ms[0] if nm_ == "to_si" else "1/" + ms[0])
         else:
             variable = True
     if variable:
@@ -545,7 +580,7 @@ def run(chk):
         for mr in f.get("mrefs", []):
             all_mrefs.setdefault(mr, set()).add(f["q"])
 
-    def reads_in(expr, ctx):
+    def reads_in(expr, ctx, body=None):
         pm = parent_map(expr)
         sites = []
         for n in walk(expr):
@@ -558,8 +593,12 @@ def run(chk):
             meas, keys, neg = None, None, False
             comp, alts, unknown = [], None, False
             p = pm.get(id(n))
+            child = n
+            flip = False
             hops = 0
             while p is not None and hops < 12:
+                if p["k"] == "Bin" and p.get("op") == "/" and len(p.get("c", [])) == 2 and any(x is child for x in walk(p["c"][1])):
+                    flip = not flip          # the slot value is inverted before what follows is applied to it
                 if p["k"] in ("MCall", "Call", "OpCall"):
                     name = p.get("m") or (p.get("fn") or "").split("::")[-1]
                     if name in ("to_si", "from_si"):
@@ -567,7 +606,7 @@ def run(chk):
                         if not ms:
                             unknown = True
                         else:
-                            comp.append(ms[0])
+                            comp.append(ms[0] if (name == "to_si") != flip else "1/" + ms[0])
                     elif p.get("fn") in HELPERS and (n_hops_to_stmt(p, pm) >= 0):
                         hm = helper_measure(HELPERS[p["fn"]])
                         if hm is None:
@@ -584,8 +623,19 @@ def run(chk):
                                 ks |= {x for x in cs if re.match(r"^[A-Z][A-Z0-9]{1,7}$", x)}
                         if ks:
                             keys = ks
+                child = p
                 p = pm.get(id(p))
                 hops += 1
+            if body is not None and expr["k"] == "Decl" and len(expr["vars"]) == 1 and not unknown:
+                # the converted value is kept in a local: conversions applied to that local later belong to the same chain
+                vname = expr["vars"][0]["n"]
+                for c_ in walk(body):
+                    if c_["k"] in ("MCall", "Call") and (c_.get("m") or (c_.get("fn") or "").split("::")[-1]) in ("to_si", "from_si") and len(c_.get("a", [])) >= 2:
+                        if any(x["k"] == "Ref" and x["n"] == vname and x.get("dl") == expr["vars"][0].get("l") for x in walk(c_["a"][1])):
+                            ms = measures_in(c_["a"][0])
+                            nm_ = c_.get("m") or (c_.get("fn") or "").split("::")[-1]
+                            if ms and not any(subscript(x) and slot_of(subscript(x)[1]) for x in walk(c_)):
+                                comp.append(ms[0] if nm_ == "to_si" else "1/" + ms[0])
             if unknown:
                 meas = ("?", None)
             elif alts is not None:
@@ -614,7 +664,7 @@ def run(chk):
                     readers.append(st)
         if f.get("body"):
             for stmt in all_statements(f["body"]):
-                for st in reads_in(stmt, dict(fn=f["q"], field=None, file=f["file"], cls=f.get("cls"))):
+                for st in reads_in(stmt, dict(fn=f["q"], field=None, file=f["file"], cls=f.get("cls")), f["body"]):
                     readers.append(st)
     for st in readers:
         chk.instance(r_r, "%s::%s@%s:%d" % (st["array"], st["slot"], st["fn"].split("::")[-1], st["l"]),
@@ -676,19 +726,31 @@ def run(chk):
     # ---- C05.unit
     r_u = chk.rule("C05.unit", "the measure a reader converts a slot with is the measure the writer converted it with (or the measure of the summary vector stored there)", floor=90)
 
+    import math
+
+    def factor_logs(ms):
+        """Per unit system: log of the product of the from_si factors of the listed measures ('1/m' divides)."""
+        out = [0.0, 0.0, 0.0, 0.0]
+        for m in ms:
+            inv = m.startswith("1/")
+            name = m[2:] if inv else m
+            if name not in sig:
+                return None
+            fs = sig[name][0::2]          # from_<sys>, from_<sys>_offset alternate
+            for i_, f_ in enumerate(fs):
+                if f_ <= 0:
+                    return None
+                out[i_] += (-1 if inv else 1) * math.log(f_)
+        return out
+
     def mset_equiv(a, b):
-        """Equal as multisets up to numeric equivalence of the measures; identity factors are dropped."""
-        a = sorted(x for x in a if not equivalent(x, "identity"))
-        b = sorted(x for x in b if not equivalent(x, "identity"))
-        if len(a) != len(b):
-            return False
-        b = list(b)
-        for x in a:
-            hit = next((y for y in b if equivalent(x, y)), None)
-            if hit is None:
-                return False
-            b.remove(hit)
-        return True
+        """The two conversion chains scale by the same factor in all four unit systems (offsets: temperature only, compared by name)."""
+        if any("temperature" == m.replace("1/", "") for m in list(a) + list(b)):
+            return sorted(a) == sorted(b)
+        la, lb = factor_logs(a), factor_logs(b)
+        if la is None or lb is None:
+            return sorted(a) == sorted(b)
+        return all(abs(x - y) <= 1e-9 * max(1.0, abs(x), abs(y)) for x, y in zip(la, lb))
 
     def matches(wm, rmeas):
         if rmeas[0] == "comp":
